@@ -40,6 +40,35 @@ pub open spec fn updated_max(vw: Seq<R>, k: int, mi: int, mv: R) -> bool {
 	&&& forall|p: int| mi < p <= k ==> (#[trigger] at(vw, k + 1, p))@ < mv@
 	&&& (mi >= 1 || f >= 1 ==> at(vw, k + 1, mi) == mv)
 }
+// the tracked extremum is an element of the stream itself (not the construction value that `new` stores as a placeholder)
+pub open spec fn genuine(view: Seq<R>, k: int, mi: int, mv: R) -> bool {
+	k >= 1 ==> first_pos(k, view.len() as int) <= mi < k && at(view, k, mi) == mv
+}
+// warm-up form of the documented rule (fewer than left+right+1 real inputs so far): among the positions that exist, the element
+// `right` steps back is >= every older and > every newer one
+pub open spec fn warm_peak_at(vw: Seq<R>, k: int, right: int) -> bool {
+	let f = first_pos(k + 1, vw.len() as int);
+	let c = k - right;
+	&&& forall|p: int| f <= p < c ==> (#[trigger] at(vw, k + 1, p))@ <= at(vw, k + 1, c)@
+	&&& forall|p: int| c < p <= k ==> (#[trigger] at(vw, k + 1, p))@ < at(vw, k + 1, c)@
+}
+pub open spec fn warm_trough_at(vw: Seq<R>, k: int, right: int) -> bool {
+	let f = first_pos(k + 1, vw.len() as int);
+	let c = k - right;
+	&&& forall|p: int| f <= p < c ==> (#[trigger] at(vw, k + 1, p))@ >= at(vw, k + 1, c)@
+	&&& forall|p: int| c < p <= k ==> (#[trigger] at(vw, k + 1, p))@ > at(vw, k + 1, c)@
+}
+// with a genuine extremum the signal condition is the (warm-up form of the) documented one at every step
+pub proof fn lemma_updated_warm_max(vw: Seq<R>, k: int, mi: int, mv: R, right: int)
+	requires vw.len() >= 3, right >= 1, k >= right, updated_max(vw, k, mi, mv), at(vw, k + 1, mi) == mv, k - right >= first_pos(k + 1, vw.len() as int)
+	ensures (mi == k - right) <==> warm_peak_at(vw, k, right)
+{
+	let c = k - right;
+	if mi != c && warm_peak_at(vw, k, right) {
+		if mi < c { assert(at(vw, k + 1, c)@ < mv@); assert(at(vw, k + 1, mi)@ <= at(vw, k + 1, c)@); }
+		else { assert(at(vw, k + 1, mi)@ < at(vw, k + 1, c)@); assert(at(vw, k + 1, c)@ <= mv@); }
+	}
+}
 pub proof fn lemma_shift(ov: Seq<R>, x: R, k: int)
 	requires ov.len() >= 1, k >= 0
 	ensures forall|p: int| first_pos(k + 1, ov.len() as int) <= p < k ==> #[trigger] at(ov.drop_first().push(x), k + 1, p) == at(ov, k, p),
@@ -201,10 +230,25 @@ pub proof fn lemma_updated_min(vw: Seq<R>, k: int, mi: int, mv: R, left: int, ri
 	}
 }
 
+pub proof fn lemma_updated_warm_min(vw: Seq<R>, k: int, mi: int, mv: R, right: int)
+	requires vw.len() >= 3, right >= 1, k >= right, updated_min(vw, k, mi, mv), at(vw, k + 1, mi) == mv, k - right >= first_pos(k + 1, vw.len() as int)
+	ensures (mi == k - right) <==> warm_trough_at(vw, k, right)
+{
+	let c = k - right;
+	if mi != c && warm_trough_at(vw, k, right) {
+		if mi < c { assert(at(vw, k + 1, c)@ > mv@); assert(at(vw, k + 1, mi)@ >= at(vw, k + 1, c)@); }
+		else { assert(at(vw, k + 1, mi)@ > at(vw, k + 1, c)@); assert(at(vw, k + 1, c)@ >= mv@); }
+	}
+}
 // ================================================================== UpperReversalSignal
 //@extract src/methods/reversal.rs struct:UpperReversalSignal
 //@end
 impl UpperReversalSignal {
+	pub open spec fn is_genuine(&self) -> bool { genuine(self.window.view(), self.index as int, self.max_index as int, self.max_value) }
+	// the instance has only seen a stream whose first element is the construction value: either this is the first call and the input equals it, or the bookkeeping already refers to a stream element
+	pub open spec fn seeded_with(&self, x: &ValueType) -> bool {
+		if self.index == 0 { self.max_index == 0 && x@ == self.max_value@ } else { self.is_genuine() }
+	}
 // the inherent three-argument constructor (renamed: Verus resolves `new` in contracts to the trait fn)
 //@extract src/methods/reversal.rs impl[UpperReversalSignal]::new pub rename=new3
 	ensures r is Ok ==> r->Ok_0.inv() && UpperReversalSignal::fresh((left, right), value, &r->Ok_0),
@@ -226,6 +270,7 @@ impl Method for UpperReversalSignal {
 	open spec fn new_req(parameters: (PeriodType, PeriodType), initial_value: &ValueType) -> bool { true }
 	open spec fn fresh(parameters: (PeriodType, PeriodType), initial_value: &ValueType, s: &Self) -> bool {
 		s.index == 0 && s.left == parameters.0 && s.right == parameters.1 && s.window.view() =~= konst((parameters.0 + parameters.1 + 1) as nat, *initial_value)
+			&& s.max_index == 0 && s.max_value == *initial_value
 	}
 	// KNOWN FINDING guard (C07/C14): the position counter saturates at PeriodType::MAX; the contract covers the calls before that
 //@ifdef NO_GUARD
@@ -239,6 +284,10 @@ impl Method for UpperReversalSignal {
 		&&& (*out == Action::Buy(255) || *out is None)
 		// once the window holds real inputs only, the signal is definitional: it fires exactly `right` steps after a peak
 		&&& (pre.index as int >= pre.window.cap() ==> ((*out == Action::Buy(255)) <==> peak_at(post.window.view(), pre.left as int)))
+		// warm-up, for a stream that starts with the construction value (the documented way to seed a method): the tracked extremum is then always an
+		// element of the stream, and the signal is the documented rule over the elements that exist; nothing fires during the first `right` steps
+		&&& (pre.seeded_with(x) ==> post.is_genuine()
+				&& ((*out == Action::Buy(255)) <==> (pre.index >= pre.right && warm_peak_at(post.window.view(), pre.index as int, pre.right as int))))
 	}
 //@extract src/methods/reversal.rs impl[Method for UpperReversalSignal]::new
 //@hint result
@@ -290,6 +339,19 @@ impl Method for UpperReversalSignal {
 		}
 		assert(updated_max(vw, k, self.max_index as int, self.max_value));
 		lemma_updated(vw, k, self.max_index as int, self.max_value, self.left as int, self.right as int);
+		// warm-up: the tracked maximum stays an element of the stream
+		if old(self).seeded_with(&value) {
+			lemma_shift(ov, value, k);
+			let mi = self.max_index as int;
+			if mi0 >= f {
+				if value@ >= mv0@ { assert(at(vw, k + 1, k) == value); } else { assert(at(vw, k + 1, mi0) == at(ov, k, mi0)); }
+			}
+			assert(at(vw, k + 1, mi) == self.max_value);
+			assert(first_pos(k + 1, w) <= mi);
+			if k >= self.right as int && k - (self.right as int) >= f {
+				lemma_updated_warm_max(vw, k, mi, self.max_value, self.right as int);
+			}
+		}
 	}
 //@end
 }
@@ -297,6 +359,11 @@ impl Method for UpperReversalSignal {
 //@extract src/methods/reversal.rs struct:LowerReversalSignal
 //@end
 impl LowerReversalSignal {
+	pub open spec fn is_genuine(&self) -> bool { genuine(self.window.view(), self.index as int, self.min_index as int, self.min_value) }
+	// the instance has only seen a stream whose first element is the construction value: either this is the first call and the input equals it, or the bookkeeping already refers to a stream element
+	pub open spec fn seeded_with(&self, x: &ValueType) -> bool {
+		if self.index == 0 { self.min_index == 0 && x@ == self.min_value@ } else { self.is_genuine() }
+	}
 // the inherent three-argument constructor (renamed: Verus resolves `new` in contracts to the trait fn)
 //@extract src/methods/reversal.rs impl[LowerReversalSignal]::new pub rename=new3
 	ensures r is Ok ==> r->Ok_0.inv() && LowerReversalSignal::fresh((left, right), value, &r->Ok_0),
@@ -318,6 +385,7 @@ impl Method for LowerReversalSignal {
 	open spec fn new_req(parameters: (PeriodType, PeriodType), initial_value: &ValueType) -> bool { true }
 	open spec fn fresh(parameters: (PeriodType, PeriodType), initial_value: &ValueType, s: &Self) -> bool {
 		s.index == 0 && s.left == parameters.0 && s.right == parameters.1 && s.window.view() =~= konst((parameters.0 + parameters.1 + 1) as nat, *initial_value)
+			&& s.min_index == 0 && s.min_value == *initial_value
 	}
 	// KNOWN FINDING guard (C07/C14): the position counter saturates at PeriodType::MAX; the contract covers the calls before that
 //@ifdef NO_GUARD
@@ -331,6 +399,10 @@ impl Method for LowerReversalSignal {
 		&&& (*out == Action::Buy(255) || *out is None)
 		// once the window holds real inputs only, the signal is definitional: it fires exactly `right` steps after a trough
 		&&& (pre.index as int >= pre.window.cap() ==> ((*out == Action::Buy(255)) <==> trough_at(post.window.view(), pre.left as int)))
+		// warm-up, for a stream that starts with the construction value (the documented way to seed a method): the tracked extremum is then always an
+		// element of the stream, and the signal is the documented rule over the elements that exist; nothing fires during the first `right` steps
+		&&& (pre.seeded_with(x) ==> post.is_genuine()
+				&& ((*out == Action::Buy(255)) <==> (pre.index >= pre.right && warm_trough_at(post.window.view(), pre.index as int, pre.right as int))))
 	}
 //@extract src/methods/reversal.rs impl[Method for LowerReversalSignal]::new
 //@hint result
@@ -382,6 +454,19 @@ impl Method for LowerReversalSignal {
 		}
 		assert(updated_min(vw, k, self.min_index as int, self.min_value));
 		lemma_updated_min(vw, k, self.min_index as int, self.min_value, self.left as int, self.right as int);
+		// warm-up: the tracked minimum stays an element of the stream
+		if old(self).seeded_with(&value) {
+			lemma_shift(ov, value, k);
+			let mi = self.min_index as int;
+			if mi0 >= f {
+				if value@ <= mv0@ { assert(at(vw, k + 1, k) == value); } else { assert(at(vw, k + 1, mi0) == at(ov, k, mi0)); }
+			}
+			assert(at(vw, k + 1, mi) == self.min_value);
+			assert(first_pos(k + 1, w) <= mi);
+			if k >= self.right as int && k - (self.right as int) >= f {
+				lemma_updated_warm_min(vw, k, mi, self.min_value, self.right as int);
+			}
+		}
 	}
 //@end
 }
